@@ -95,6 +95,9 @@ def generate(rng, tier):
             # first among the least advanced ones: a degenerate call outside the property's reading (see DESIGN C05)
             base = dict(base, end=t0 + 1)
         cases.append({"base": base, "variants": _variants(rng, base, tier)})
+    # finam's own producers with internal state (noise generators, callback generators): monitor only
+    for _ in range(6 if tier == "quick" else 60):
+        cases.append(_gen_own(rng))
     return cases
 
 
@@ -104,7 +107,62 @@ def _variant_case(case, v):
     return {"comps": comps, "end": case["base"]["end"], "link_order": v["link_order"]}
 
 
+def model_applies(case):
+    return "own" not in case
+
+
+def _gen_own(rng):
+    import itertools
+    n_noise = rng.choice([2, 2, 3])
+    seeds = rng.sample([1, 7, 42, 1234, 99], n_noise)
+    orders = list(itertools.permutations(range(2 * n_noise)))
+    rng.shuffle(orders)
+    return {"own": {"seeds": seeds, "octaves": rng.choice([1, 3]), "steps_h": [rng.choice([6, 12, 24]) for _ in seeds],
+                    "days": rng.choice([3, 5]), "orders": [list(o) for o in orders[:8]],
+                    "grid": rng.choice([[4, 3], [5], [3, 3]])}}
+
+
+def _run_own(b):
+    """N_i (SimplexNoise, own seed, grid and units declared) -> C_i (DebugConsumer): several listing orders"""
+    from datetime import datetime, timedelta
+    import numpy as np
+    import finam as fm
+    from ..fin import err_class
+    start = datetime(2000, 1, 1)
+    out = []
+    for order in b["orders"]:
+        comps = []
+        noises, conss = [], []
+        for k, seed in enumerate(b["seeds"]):
+            noises.append(fm.components.SimplexNoise(
+                info=fm.Info(time=None, grid=fm.UniformGrid(tuple(b["grid"])), units="m"), frequency=0.3,
+                time_frequency=1.0 / (24 * 3600), octaves=b["octaves"], persistence=0.5, low=0.0, high=1.0, seed=seed))
+        series = [[] for _ in b["seeds"]]
+        conss = []
+        for k, seed in enumerate(b["seeds"]):
+            def rec(name, data, t, k=k):
+                series[k].append([t.isoformat(), np.asarray(fm.data.get_magnitude(data)).round(12).ravel().tolist()])
+            conss.append(fm.components.DebugConsumer(
+                {"In": fm.Info(time=None, grid=None, units=None)}, start=start, step=timedelta(hours=b["steps_h"][k]),
+                callbacks={"In": rec}))
+        allc = noises + conss
+        listed = [allc[i] for i in order]
+        outcome = "ok"
+        try:
+            comp = fm.Composition(listed)
+            for n_, c_ in zip(noises, conss):
+                n_.outputs["Noise"] >> c_.inputs["In"]
+            comp.connect(start)
+            comp.run(end_time=start + timedelta(days=b["days"]))
+        except Exception as e:  # noqa
+            outcome = err_class(e) + ": " + str(e)[:200]
+        out.append({"order": order, "outcome": outcome, "series": series})
+    return {"own": out}
+
+
 def run_impl(case):
+    if "own" in case:
+        return _run_own(case["own"])
     return {"variants": [schedlib.run_case(_variant_case(case, v)) for v in case["variants"]]}
 
 
@@ -137,6 +195,19 @@ def _canon(case, v, o):
 
 
 def monitor(case, obs):
+    if "own" in case:
+        ref = obs["own"][0]
+        if not ref["outcome"].startswith("ok"):
+            return f"listing {ref['order']}: {ref['outcome']}"
+        for o in obs["own"][1:]:
+            if o["outcome"] != ref["outcome"]:
+                return f"outcome differs between listings {ref['order']} ({ref['outcome']}) and {o['order']} ({o['outcome']})"
+            for k, (a, b) in enumerate(zip(ref["series"], o["series"])):
+                if a != b:
+                    j = next(i for i, (x, y) in enumerate(zip(a, b)) if x != y) if len(a) == len(b) else -1
+                    return (f"the series received by consumer {k} differs between listings {ref['order']} and {o['order']}"
+                            + (f": at {a[j][0]} {a[j][1][:3]} vs {b[j][1][:3]}" if j >= 0 else " (lengths)"))
+        return None
     ref = None
     for v, o in zip(case["variants"], obs["variants"]):
         if "harness_error" in o:
@@ -156,6 +227,8 @@ def monitor(case, obs):
 
 
 def nontrivial(case, obs):
+    if "own" in case:
+        return len(obs.get("own", [])) >= 2
     if len(case["variants"]) < 2:
         return False
     o = obs["variants"][0]
@@ -168,12 +241,21 @@ def nontrivial(case, obs):
 
 def distribution(cases, obss):
     from collections import Counter
+    n_own = sum(1 for c in cases if "own" in c)
+    pairs = [(c, o) for c, o in zip(cases, obss) if "own" not in c]
+    cases, obss = [c for c, _ in pairs], [o for _, o in pairs]
     return {"variants_per_case": dict(Counter(len(c["variants"]) for c in cases)),
             "n_components": dict(Counter(len(c["base"]["comps"]) for c in cases)),
             "outcomes": dict(Counter(o["variants"][0]["outcome"] for o in obss if "variants" in o))}
 
 
 def shrink_candidates(case):
+    if "own" in case:
+        b = case["own"]
+        if len(b["orders"]) > 2:
+            for i in range(1, len(b["orders"])):
+                yield {"own": dict(b, orders=[b["orders"][0], b["orders"][i]])}
+        return
     for b in sc.shrink_candidates(case["base"]):
         n = len(b["comps"])
         nl = sum(len(c["inputs"]) for c in b["comps"])
